@@ -18,7 +18,8 @@ RULE = ("base cases: one pool instance, 2-6 fully consumed calls mixing imap / i
         "(incl. maxsize 1 around empty calls), join_timeout shorter than a slow end() of retiring workers, one long-lived pool (320 replacements under RLIMIT_NOFILE=160) and one pool whose factory needs 1.4 s per replacement. Each base case: dry run, one run per (executed statement, occurrence) "
         "with a 120 ms delay, random 2-3 delay combinations, forced GIL hand-offs. Oracles per run: per-call value "
         "oracle, exception per call, quiescence oracle. distinct_nontrivial = distinct (base case, "
-        "thread-switch-pair set, plan size).")
+        "thread-switch-pair set, plan size)."
+        " Also: idle periods of 6.5 s between calls under fork / fork server / spawn, data items of 70 kB, list items, array-like inputs.")
 ASSUMPTIONS = [
     "every call is fully consumed before the next one starts; functors return normally",
     "queue residue between calls (wids of workers that retired after the replace thread stopped, payload-free "
